@@ -83,7 +83,7 @@ pub fn gen(seed: u64, _idx: u64, tier: Tier) -> Scenario {
     for _ in 0..n {
         let c = r.below(nc as u64) as usize;
         if Some(c) == waiter { continue; }
-        match r.weighted(&[12, 3, 26, 10, 12, 6, 2, 1, 5, 10, 3, 5]) {
+        match r.weighted(&[12, 3, 26, 10, 12, 6, 2, 2, 5, 10, 3, 5]) {
             0 => { let d = *r.pick(&dbs); belief[c] = d; sc.steps.push(Step::Send { c, a: vec![b("SELECT"), b(&format!("{}", d))], split: vec![] }); }
             1 => { sc.steps.push(Step::Send { c, a: vec![b("SELECT"), b(*r.pick(&["16", "-1", "abc", "99999999999999999999", "", " 1", "1.0", "15x"]))], split: vec![] }); }
             2 => sc.steps.push(Step::Send { c, a: data_cmd(&mut r, &mut uniq, false), split: vec![] }),
@@ -130,8 +130,18 @@ pub fn gen(seed: u64, _idx: u64, tier: Tier) -> Scenario {
                     sc.steps.push(Step::Turns { n: 1 });
                 }
             }
-            6 => sc.steps.push(Step::Send { c, a: vec![b("FLUSHDB")], split: vec![] }),
-            7 => sc.steps.push(Step::Send { c, a: vec![b("FLUSHALL")], split: vec![] }),
+            k @ (6 | 7) => { // FLUSHDB / FLUSHALL through every execution path
+                let verb = if k == 6 { "FLUSHDB" } else { "FLUSHALL" };
+                match r.below(4) {
+                    0 | 1 => sc.steps.push(Step::Send { c, a: vec![b(verb)], split: vec![] }),
+                    2 => { for v in ["MULTI", verb, "EXEC"] { sc.steps.push(Step::Send { c, a: vec![b(v)], split: vec![] }); } }
+                    _ => {
+                        let mut a = if r.chance(1, 3) { vec![b("EVALSHA"), b("@SHA@"), b("0")] } else { vec![b("EVAL"), b(WRAP), b("0")] };
+                        a.push(b(verb));
+                        sc.steps.push(Step::Send { c, a, split: vec![] });
+                    }
+                }
+            }
             8 => { // look at every database of the run from one connection
                 for d in dbs.clone() { sc.steps.push(Step::Send { c, a: vec![b("SELECT"), b(&format!("{}", d))], split: vec![] }); sc.steps.push(Step::Send { c, a: if r.chance(1, 2) { vec![b("DBSIZE")] } else { vec![b("GET"), b("k1")] }, split: vec![] }); belief[c] = d; }
             }
@@ -237,7 +247,7 @@ pub fn exec(sc: &Scenario) -> Outcome {
 pub static DEF: CheckDef = CheckDef {
     id: "C18", level: "exploration", gen, exec,
     nontrivial: |o| o.counters.get("cmds").copied().unwrap_or(0) >= 12,
-    rule: "one run = 2-4 connections moving among 2-4 of the 16 databases (usually incl. 0) and running every command family (strings, keys, lists, sets incl. multi-key algebra and SMOVE/RPOPLPUSH/RENAME/MGET/MSET, hashes, sorted sets, streams, DBSIZE/KEYS) on the same key names in each of them through every execution path: directly, queued in MULTI/EXEC (sometimes with a queued SELECT), through EVAL and EVALSHA of a pass-through script, and as BLPOP/BRPOP completed later while another connection first pushes to the same name in a different database and then in the waiter's; SELECT of invalid indexes (16, -1, non-numeric, overflow, padded); FLUSHDB / FLUSHALL; reconnects (fresh connections start in 0). The simulator derives the execution order from the transport seam and feeds it to a 16-database reference model with per-connection selection; oracle: every reply equals the model's for the database selected on that connection at that time, the canonical dump of all 16 databases equals the model after every turn (a script may only differ from the direct command inside its own database), a waiter is served only from its own database, and - independently of the model - no reply carries a value whose embedded tag names another database than the connection's; non-trivial = at least 12 commands",
+    rule: "one run = 2-4 connections moving among 2-4 of the 16 databases (usually incl. 0) and running every command family (strings, keys, lists, sets incl. multi-key algebra and SMOVE/RPOPLPUSH/RENAME/MGET/MSET, hashes, sorted sets, streams, DBSIZE/KEYS) on the same key names in each of them through every execution path: directly, queued in MULTI/EXEC (sometimes with a queued SELECT), through EVAL and EVALSHA of a pass-through script, and as BLPOP/BRPOP completed later while another connection first pushes to the same name in a different database and then in the waiter's; SELECT of invalid indexes (16, -1, non-numeric, overflow, padded); FLUSHDB / FLUSHALL (directly, in MULTI/EXEC, from a script); reconnects (fresh connections start in 0). The simulator derives the execution order from the transport seam and feeds it to a 16-database reference model with per-connection selection; oracle: every reply equals the model's for the database selected on that connection at that time, the canonical dump of all 16 databases equals the model after every turn (a script may only differ from the direct command inside its own database), a waiter is served only from its own database, and - independently of the model - no reply carries a value whose embedded tag names another database than the connection's; non-trivial = at least 12 commands",
     quick_budget_s: 40.0, thorough_budget_s: 900.0, quick_max_runs: 1_000_000, thorough_max_runs: 100_000_000, exhaustive: false, exhaustive_after: |_| 0,
     real: REAL_WHOLE_SERVER, stub: STUB_WHOLE_SERVER, assumptions: ASSUME_COMMON,
 };
